@@ -255,7 +255,7 @@ Inductive node :=
 | NUnop (mid : Z) (cname pn : string) (a : node)                (* ModifiedPrior *)
 | NModel (mid : Z) (lbl cls : string) (cargs : list string) (attrs : list (string * node))
 | NColl (mid : Z) (item_number : Z) (attrs : list (string * node))
-| NInst (cname : string) (cargs : list string) (attrs : list (string * node))   (* plain instance *)
+| NInst (cname : string) (cargs : list string) (ex : option (list string)) (attrs : list (string * node))   (* plain instance *)
 | NSearch (cname : string) (fields : list string) (attrs : list (string * node)). (* search: getattr view of its fields *)
 
 Definition fam_name (f : family) : string :=
@@ -273,7 +273,7 @@ Definition fam_has_ms (f : family) : bool :=
 
 Definition info_fields (fs : list string) (mo : bool) : info := mkinfo (Some fs) mo [] None.
 Definition info_mo : info := mkinfo None true [] None.
-Definition info_plain (cargs : list string) : info := mkinfo None false ("self" :: cargs) None.
+Definition info_plain (cargs : list string) (ex : option (list string)) : info := mkinfo None false ("self" :: cargs) ex.
 
 (* the object graph the walk sees for a composition tree (public attributes, ids, labels) *)
 Fixpoint reify (n : node) : obj :=
@@ -308,8 +308,8 @@ Fixpoint reify (n : node) : obj :=
         (("id", OInt mid) :: ("item_number", OInt item_number) ::
          (fix go (l : list (string * node)) : list (string * obj) :=
             match l with [] => [] | kv :: r => match kv with (k, v) => (k, reify v) :: go r end end) attrs)
-  | NInst cname cargs attrs =>
-      OInst cname (info_plain cargs)
+  | NInst cname cargs ex attrs =>
+      OInst cname (info_plain cargs ex)
         ((fix go (l : list (string * node)) : list (string * obj) :=
             match l with [] => [] | kv :: r => match kv with (k, v) => (k, reify v) :: go r end end) attrs)
   | NSearch cname fields attrs =>
@@ -334,7 +334,7 @@ Fixpoint has_prior (n : node) : bool :=
                       match l with [] => false | kv :: r => match kv with (_, v) => has_prior v || go r end end) ms
   | NBinop _ _ _ _ l r => has_prior l || has_prior r
   | NUnop _ _ _ a => has_prior a
-  | NModel _ _ _ _ attrs | NColl _ _ attrs | NInst _ _ attrs | NSearch _ _ attrs =>
+  | NModel _ _ _ _ attrs | NColl _ _ attrs | NInst _ _ _ attrs | NSearch _ _ attrs =>
       (fix go (l : list (string * node)) : bool :=
          match l with [] => false | kv :: r => match kv with (_, v) => has_prior v || go r end end) attrs
   | _ => false
@@ -393,7 +393,7 @@ Fixpoint reload (n : node) : option node :=
           if has_prior n then Some (NModel mid lbl cls cargs attrs')
           else (* type "instance": rebuilt by calling the class with the arguments as keywords *)
                match by_ctor cargs attrs' with
-               | Some a => Some (NInst (basename cls) cargs a)
+               | Some a => Some (NInst (basename cls) cargs None a)
                | None => None
                end
       | None => None
@@ -404,12 +404,12 @@ Fixpoint reload (n : node) : option node :=
       | Some attrs' => Some (NColl mid 0 attrs')          (* item_number is not serialised *)
       | None => None
       end
-  | NInst cname cargs attrs =>
+  | NInst cname cargs ex attrs =>
       (* instance_as_dict keeps the constructor arguments and the class is called again with them:
          the constructor is assumed to be a function of its arguments *)
       match all_some ((fix go (l : list (string * node)) : list (string * option node) :=
                          match l with [] => [] | kv :: r => match kv with (k, v) => (k, reload v) :: go r end end) attrs) with
-      | Some attrs' => Some (NInst cname cargs attrs')
+      | Some attrs' => Some (NInst cname cargs ex attrs')
       | None => None
       end
   | NSearch cname fields attrs =>
